@@ -407,12 +407,18 @@ def _filter_through(c, which):
         if isinstance(snap, dict) and "y" in snap:
             c.prove("snapshot-not-aliased", snap["y"] is not frk.fields["captures"]["y"] and snap["y"].fields["values"] is not frk.fields["captures"]["y"].fields["values"])
             c.prove("snapshot-values", len(snap["y"].fields["values"]) == 1 and snap["y"].fields["values"][0] is prev)
+    if which == "intercept" and seen and isinstance(seen[0], dict) and "x" in seen[0]:
+        # what the override sees for the variable being bound: a capture carrying the variable's REAL name (that is what a generic
+        # capture reports) and exactly the tentative value
+        tx = seen[0]["x"]
+        c.prove("tentative-capture-carries-the-real-name-and-the-tentative-value", list(tx.fields["names"]) == ["x"] and len(tx.fields["values"]) == 1,
+                note=f"names={tx.fields['names']} values={len(tx.fields['values'])}", only=["C04"])
     if which == "intercept":
         c.prove("declined-is-ABSENT", True if n else it.is_term(res, it.models.absent(it)))
         c.prove("tentative-removed", "x" not in frk.fields["captures"])
 
 
-@unit("trigger-filter", ["C12"], [I + ":BaseAccumulator.trigger", I + ":BaseAccumulator._call_with_snapshot", I + ":BaseAccumulator.build",
+@unit("trigger-filter", ["C12", "C02"], [I + ":BaseAccumulator.trigger", I + ":BaseAccumulator._call_with_snapshot", I + ":BaseAccumulator.build",
                                  I + ":BaseAccumulator.fork", I + ":Capture.snapshot", I + ":BaseAccumulator.__check"])
 def u_trigger_filter(c):
     """Event delivery goes through the capture check: the trigger handler runs iff check_captures(snapshot) holds."""
